@@ -174,19 +174,27 @@ class TimeProxy:
 
 
 def collapse(events):
-    """adds that directly follow a `new` are those of initialize: collapse them to a count"""
+    """the adds made by initialize() (between `new` and the `init-done` marker) collapse to a count;
+    minimize / maximize calls made there are kept"""
     out = []
     i = 0
     while i < len(events):
         e = events[i]
-        out.append(e)
         i += 1
+        if e == "init-done":
+            continue
+        out.append(e)
         if e.startswith("new "):
             n = 0
-            while i < len(events) and events[i].startswith("add "):
-                n += 1
+            kept = []
+            while i < len(events) and events[i] != "init-done":
+                if events[i].startswith("add "):
+                    n += 1
+                else:
+                    kept.append(events[i])
                 i += 1
             out.append(f"init-add {n}")
+            out += kept
     return out
 
 
@@ -198,6 +206,16 @@ def run_real(real, cfg, ops, answers):
     proxy = Z3Proxy(rec)
     ps_solver.z3 = proxy
     ps_solver.time = TimeProxy(rec)
+    orig_init = ps_solver.SchedulingSolver.initialize
+
+    def marked_initialize(self):
+        try:
+            return orig_init(self)
+        finally:
+            if self.debug:
+                rec.log(f"tracked-owners {len(self._map_boolrefs_to_constraints)}")
+            rec.log("init-done")
+    ps_solver.SchedulingSolver.initialize = marked_initialize
     try:
         with pslib.quiet(), warnings.catch_warnings():
             warnings.simplefilter("ignore")
@@ -227,6 +245,7 @@ def run_real(real, cfg, ops, answers):
                     rec.log("raise " + type(e).__name__)
     finally:
         ps_solver.z3, ps_solver.time = old_z3, old_time
+        ps_solver.SchedulingSolver.initialize = orig_init
     return collapse(rec.events)
 
 
